@@ -1,0 +1,178 @@
+// Column / row-set laboratory for verification (feature `verif`).
+//
+// Builds a row-set from arrays with an explicit encoding, block size and checksum through the
+// real builders, opens it through the real `DiskRowset::open` (in-memory I/O backend, real
+// index decoding and block cache) and exposes the real column and row-set iterators.
+
+use std::path::PathBuf;
+use std::sync::Arc;
+
+use moka::future::Cache;
+use risinglight_proto::rowset::DeleteRecord;
+use risinglight_proto::rowset::block_checksum::ChecksumType;
+
+use super::*;
+use crate::array::{ArrayImpl, DataChunk};
+use crate::catalog::{ColumnCatalog, ColumnDesc};
+use crate::storage::{KeyRange, StorageColumnRef, StorageResult};
+use crate::types::DataType;
+
+/// Encoding selector (mirror of the crate-private `EncodeType`).
+#[derive(Debug, Clone, Copy, PartialEq, Eq)]
+pub enum LabEncode {
+    Plain,
+    RunLength,
+    Dictionary,
+}
+
+pub struct LabRowset {
+    rowset: Arc<DiskRowset>,
+    infos: Arc<[ColumnCatalog]>,
+}
+
+impl LabRowset {
+    /// Build a row-set with the given column types from `chunks` (each chunk: one array per
+    /// column).
+    pub async fn build(
+        columns: &[(DataType, bool)],
+        chunks: &[Vec<ArrayImpl>],
+        target_block_size: usize,
+        encode: LabEncode,
+        crc32: bool,
+        record_first_key: bool,
+        primary_key_first_column: bool,
+    ) -> StorageResult<Self> {
+        let infos: Arc<[ColumnCatalog]> = columns
+            .iter()
+            .enumerate()
+            .map(|(i, (ty, nullable))| {
+                let mut desc = ColumnDesc::new(format!("c{i}"), ty.clone(), *nullable);
+                if i == 0 && primary_key_first_column {
+                    desc.set_primary(true);
+                }
+                ColumnCatalog::new(i as u32, desc)
+            })
+            .collect();
+        let options = ColumnBuilderOptions {
+            target_block_size,
+            checksum_type: if crc32 {
+                ChecksumType::Crc32
+            } else {
+                ChecksumType::None
+            },
+            encode_type: match encode {
+                LabEncode::Plain => EncodeType::Plain,
+                LabEncode::RunLength => EncodeType::RunLength,
+                LabEncode::Dictionary => EncodeType::Dictionary,
+            },
+            record_first_key,
+        };
+        let mut builder = RowsetBuilder::new(infos.clone(), options);
+        for chunk in chunks {
+            builder.append(chunk.iter().cloned().collect::<DataChunk>());
+        }
+        let encoded = builder.finish();
+        let backend = IOBackend::in_memory();
+        let dir = PathBuf::from("verif_lab");
+        RowsetWriter::new(&dir, backend.clone())
+            .flush(encoded)
+            .await?;
+        let rowset =
+            DiskRowset::open(dir, infos.clone(), Cache::new(64), 0, backend.clone()).await?;
+        Ok(Self {
+            rowset: Arc::new(rowset),
+            infos,
+        })
+    }
+
+    /// The real column iterator of column `col`, positioned at row `start`.
+    pub async fn column_iter(&self, col: usize, start: u32) -> StorageResult<LabColumnIter> {
+        Ok(LabColumnIter(
+            ColumnIteratorImpl::new(self.rowset.column(col), &self.infos[col], start).await?,
+        ))
+    }
+
+    /// The real row-set iterator over `cols` (`None` = row handler column), with the given rows
+    /// deleted through real delete vectors (one vector per inner list).
+    pub async fn rowset_iter(
+        &self,
+        cols: &[Option<u32>],
+        deleted: &[Vec<u32>],
+        start: u32,
+        filter: Option<KeyRange>,
+    ) -> StorageResult<LabRowsetIter> {
+        let refs: Arc<[StorageColumnRef]> = cols
+            .iter()
+            .map(|c| match c {
+                Some(i) => StorageColumnRef::Idx(*i),
+                None => StorageColumnRef::RowHandler,
+            })
+            .collect();
+        let dvs = deleted
+            .iter()
+            .enumerate()
+            .map(|(i, rows)| {
+                Arc::new(DeleteVector::new(
+                    i as u64,
+                    0,
+                    rows.iter().map(|r| DeleteRecord { row_id: *r }).collect(),
+                ))
+            })
+            .collect();
+        Ok(LabRowsetIter(
+            self.rowset
+                .iter(refs, dvs, ColumnSeekPosition::RowId(start), filter)
+                .await?,
+        ))
+    }
+
+    /// Row id the scan starts from for a given begin key (as `SecondaryTransaction::scan` does).
+    pub async fn start_rowid(&self, begin_key: Option<&crate::types::DataValue>) -> u32 {
+        match self.rowset.start_rowid(begin_key).await {
+            ColumnSeekPosition::RowId(x) => x,
+            #[allow(unreachable_patterns)]
+            _ => 0,
+        }
+    }
+
+    /// Number of blocks of column `col`.
+    pub fn block_count(&self, col: usize) -> usize {
+        self.rowset.column(col).index().indexes().len()
+    }
+}
+
+pub struct LabColumnIter(ColumnIteratorImpl);
+
+impl LabColumnIter {
+    pub async fn next_batch(
+        &mut self,
+        expected_size: Option<usize>,
+    ) -> StorageResult<Option<(u32, ArrayImpl)>> {
+        self.0.next_batch(expected_size).await
+    }
+    pub fn fetch_hint(&self) -> (usize, bool) {
+        self.0.fetch_hint()
+    }
+    pub fn fetch_current_row_id(&self) -> u32 {
+        self.0.fetch_current_row_id()
+    }
+    pub fn skip(&mut self, cnt: usize) {
+        self.0.skip(cnt)
+    }
+}
+
+pub struct LabRowsetIter(RowSetIterator);
+
+impl LabRowsetIter {
+    /// Next batch with invisible rows removed.
+    pub async fn next_batch(
+        &mut self,
+        expected_size: Option<usize>,
+    ) -> StorageResult<Option<DataChunk>> {
+        Ok(self
+            .0
+            .next_batch(expected_size)
+            .await?
+            .map(|c| c.to_data_chunk()))
+    }
+}
